@@ -45,7 +45,7 @@ impl ProgProperty for C01 {
         for (i, o) in obs.iter().enumerate() {
             if let Some(o) = o {
                 if o.note("lvl_eq3") == Some("0") {
-                    return Some(Fail { kind: "level-above-3-differs".into(), detail: format!("optimize({}) != optimize(3) structurally", c.cfgs[i].level) });
+                    return Some(Fail { kind: "level-above-3-differs".into(), detail: format!("optimize({}) != optimize(3) structurally", c.cfgs[i].level), cfg: None });
                 }
             }
         }
